@@ -31,6 +31,7 @@ import (
 // 1. close / reopen: the C12 machine on an on-disk store with a reopen rule
 
 func TestC13Reopen(t *testing.T) {
+	defer vt.Watch("TestC13Reopen", 120*time.Second)()
 	rec := vt.For("C13")
 	rec.Rule("reopen: the C12 operation machine (all store methods, virtual time) on an ON-DISK badger store with a close+reopen rule at generated points; after every reopen and at the end the full observation (all getters, Stats, nonce decisions through later submissions) equals the contract model; non-trivial = >=1 reopen after >=3 mutations; distinct by op sequence")
 	rapid.Check(t, func(rt *rapid.T) {
